@@ -55,7 +55,7 @@ Fixpoint stmt_reads (s : stmt) {struct s} : list (string * string) :=
   | SFor _ it test body => expr_reads it ++ match test with Some t => expr_reads t | None => [] end ++ go body
   | SSet _ e | SSetNs _ _ e => expr_reads e
   | SCallBlock c body => expr_reads c ++ go body
-  | SBlock _ body | SMacro _ _ body => go body
+  | SBlock _ body | SMacro _ _ _ body => go body
   | _ => []
   end.
 Definition template_reads : list (string * string) := flat_map (fun t : string * string * list stmt => flat_map stmt_reads (snd t)) all_templates.
@@ -73,7 +73,7 @@ Fixpoint stmt_aliases (s : stmt) {struct s} : list string :=
   match s with
   | SSet v (EAttr _ "type_def") => [v]
   | SIf _ t elifs f => go t ++ (fix ge (l : list (expr * list stmt)) : list string := match l with [] => [] | (_, b) :: r => go b ++ ge r end) elifs ++ go f
-  | SFor _ _ _ body | SCallBlock _ body | SBlock _ body | SMacro _ _ body => go body
+  | SFor _ _ _ body | SCallBlock _ body | SBlock _ body | SMacro _ _ _ body => go body
   | _ => []
   end.
 Section Alias.
@@ -104,7 +104,7 @@ Section Alias.
     | SFor _ it test body => expr_alias_reads it ++ match test with Some t => expr_alias_reads t | None => [] end ++ go body
     | SSet _ e | SSetNs _ _ e => expr_alias_reads e
     | SCallBlock c body => expr_alias_reads c ++ go body
-    | SBlock _ body | SMacro _ _ body => go body
+    | SBlock _ body | SMacro _ _ _ body => go body
     | _ => []
     end.
 End Alias.
